@@ -234,6 +234,7 @@ class C20(PropertyCheck):
                     knobs["base"] = "zero"       # section-relative offsets become large as well
                 img, ext = texcont.WRITERS[kind](texs, rng, **knobs)
                 cases.append(Case("%s ref %s %s" % (kind, hx(img), tex_tokens(texs)), kind + "-far"))
+        cases.append(Case("ctpk codec", "codec-table"))
         rng.shuffle(cases)          # spread the expensive prefix sweeps over the shards
         return cases
 
@@ -243,6 +244,8 @@ class C20(PropertyCheck):
         kind, sub = toks[0], toks[1]
         if impl_out in ("PANIC", "ABORT", "TIMEOUT") or impl_out.startswith("MISSING") or impl_out.startswith("UNKNOWN"):
             return "%s %s: %s" % (kind, sub, impl_out)
+        if sub == "codec":
+            return None                      # the table itself is compared with the model's (leg K)
         if sub == "ref":
             texs = parse_tex_tokens(toks[3:])
             ot = impl_out.split(" ")
